@@ -196,6 +196,9 @@ PROPERTIES = {
              "require": {"passes": 300, "owned": 30}},
             {"name": "special_values", "cases": FE.special_value_cases(tier, seed + 1), "mask": M_TRACK,
              "what": "tracking rules must not depend on values: all-zero / all-one / equal operands"},
+            {"name": "model_tracking", "cases": FM.c14_cases(tier, seed + 7), "mask": M_TRACK,
+             "what": "models with all parameters frozen, empty models and inference loops: the output is untracked and nothing receives a gradient; frozen / unfrozen parameters in training loops",
+             "require": {"passes": 50}},
             {"name": "tracking_rules_real", "cases": FR.real_tracking_cases(tier, seed), "spec": "TraceReal", "real": True,
              "mask": M_TRACK | {"unexpected-panic"},
              "what": "the transcendental operations (ln, exp, sigmoid, softmax, reciprocal, powf 1.5, division): result flags, gradients plain and untracked, operands own their buffers again after the results are dropped",
